@@ -50,8 +50,10 @@ def _binding_selftest(drv, rows, chk):
     the replay binds nothing."""
     picked, seen = [], set()
     for r in rows:
-        if r["era"] not in seen and len(r["certs"]) >= 1:
-            seen.add(r["era"])
+        # per era one unflagged row and, where the era has the flag, one flagged is_valid = false
+        k = (r["era"], bool(r.get("p2")))
+        if k not in seen and len(r["certs"]) >= 1:
+            seen.add(k)
             picked.append(dict(r))
     if not picked:
         raise vlib.MachineryError("binding self-test: no rows")
@@ -60,12 +62,14 @@ def _binding_selftest(drv, rows, chk):
         r["accept"] = not r["accept"]
     d1, n1 = _disagreements(drv, picked, chk, "flipped.ndjson")
     # the rule-list and baseline probes are the same in both runs; only the row replays flip
-    replays = 4 * len(picked)       # 3 scales + 1 CBOR round trip per row
+    # 3 scales + 1 CBOR round trip per row (none where the encoding cannot carry is_valid = false)
+    replays = sum(4 if (not r.get("p2") or r.get("p2wire")) else 3 for r in picked)
     if n0 != n1 or d0 + d1 < replays or d1 == 0:
         raise vlib.MachineryError("binding self-test: %d replays, %d disagreements as emitted + %d flipped"
                                   % (replays, d0, d1))
-    chk.extra["c27_binding_selftest"] = ("%d rows x 4 replays: %d disagreements as emitted, %d with the "
-                                         "expected verdict flipped" % (len(picked), d0, d1))
+    chk.extra["c27_binding_selftest"] = ("%d rows (%d flagged is_valid = false), %d replays: %d disagreements as "
+                                         "emitted, %d with the expected verdict flipped"
+                                         % (len(picked), sum(1 for r in picked if r.get("p2")), replays, d0, d1))
 
 
 def run(chk, replay=None):
@@ -76,15 +80,22 @@ def run(chk, replay=None):
                 "driver builds the era's concrete transaction, mock ledger state (UTxO, registered pools) and protocol "
                 "parameters, calls the era's UtxoValidateValueNotConservedUtxo at three scales (x1, x10^6, ~2^62), each with a different concrete identity of the model's two assets (names differing by a trailing 0x00, \"\" vs 0x00, prefix-related, 32 bytes differing in the last one, random, same name under two policy ids), plus "
                 "once after a CBOR encode/decode round trip, and compares accept/reject with the TLC row; it also "
-                "confirms the rule is in the era's UtxoValidationRules. A case is one (abstract transaction, scale, "
+                "confirms the rule is in the era's UtxoValidationRules. The phase-2 flag is a coordinate of the case "
+                "space (Alonzo..Dijkstra): one base transaction in FlagEvery (quick 5, thorough every one) is emitted a "
+                "second time, in all its variants, with is_valid = false; the reference verdict does not read the flag "
+                "(invariants FlagIrrelevant, FlagTwin), the driver builds the flagged transaction and expects the "
+                "unflagged twin's answer (keys end in :p2invalid; round trip where the era's encoding carries the "
+                "flag, i.e. not Dijkstra, whose flag comes from the block's list of invalid transactions). A case is one (abstract transaction, scale, "
                 "policy class); non-trivial when it has a certificate, asset, withdrawal, donation or proposal")
     chk.assumptions = [
         "a stake / DRep deregistration refunds the current keyDeposit / drepDeposit parameter (mock ledger state "
         "records no per-credential deposit)",
         "deposits carried by Conway certificates and proposals equal the protocol parameter (well-formed; other "
         "rules enforce it)",
-        "deposit parameters are >= 1; transactions are phase-2 valid; Dijkstra direct deposits and sub-transactions "
-        "are empty",
+        "deposit parameters are >= 1; Dijkstra direct deposits and sub-transactions are empty",
+        "consumed = produced is a phase-1 precondition of the UTXO rule and is applied whatever is_valid says "
+        "(Alonzo/Babbage/Conway ledger: only UTXOS branches on the flag); flagged replays are not crossed with the "
+        "all-zero policy id classes (those stay with the unflagged cases, where the known deviation F-C27-b is keyed)",
         "the rule only adds, so replaying a small-integer case scaled by M is exact (homomorphic scaling)",
     ]
     drv = vlib.go_build("c27")
@@ -140,6 +151,9 @@ def run(chk, replay=None):
     eras = sorted({x["era"] for x in rows})
     chk.extra["c27_cases_per_era"] = {e: sum(1 for x in rows if x["era"] == e) for e in eras}
     chk.extra["c27_reference_accepts"] = sum(1 for x in rows if x["accept"])
+    chk.extra["c27_flagged_is_valid_false_cases_per_era"] = {
+        e: sum(1 for x in rows if x["era"] == e and x.get("p2")) for e in eras if any(
+            x["era"] == e and x.get("p2") for x in rows)}
     chk.extra["c27_certificate_multisets"] = len({(x["era"], tuple(x["certs"])) for x in rows})
     _binding_selftest(drv, rows, chk)
     vlib.run_driver(chk, drv, [cases], timeout=600 if chk.tier == "quick" else 1800)
